@@ -61,9 +61,13 @@ def write_file(acqs, n_k0=4, n_coils=2, enc_matrix=(8, 8, 1), recon_matrix=None,
         acq.scan_counter = a['id']
         acq.acquisition_time_stamp = 1000 + a['id']
         acq.position[:] = (a['id'], 2 * a['id'], 3 * a['id'])
-        acq.read_dir[0] = 1
-        acq.phase_dir[1] = 1
-        acq.slice_dir[2] = 1
+        dirs = a.get('dirs')  # (read, phase, slice) direction cosines; default: the identity frame
+        if dirs is None:
+            acq.read_dir[0] = 1
+            acq.phase_dir[1] = 1
+            acq.slice_dir[2] = 1
+        else:
+            acq.read_dir[:], acq.phase_dir[:], acq.slice_dir[:] = dirs
         flags = a.get('flags', 0)
         for bit in range(64):
             if flags >> bit & 1:
